@@ -677,8 +677,8 @@ def _apply_post(tree, post):
 
 
 def run_pair(case, st):
-    a = trees.build(case['a'])
-    b = trees.build(case['b'])
+    a = trees.build(case['a'], ordered=False)
+    b = trees.build(case['b'], ordered=False)
     _apply_post(b, case.get('post') or [])
     sa, sb = trees.snapshot(a), trees.snapshot(b)
     strict = trees.snap_eq(sa, sb)
